@@ -7,6 +7,7 @@ visited exactly once.  Syntactic validity of the emitted JS/TS is not decided.
 """
 import ast
 
+from .. import totality
 from ..consteval import try_fold
 from ..dataflow import defs
 from ..lattice import ir_family, reaching_classes
@@ -33,11 +34,18 @@ EXPLANATION = (
     'version test, and renders attribute literals with repr/json.dumps. R4: js_types visits '
     'every data type of every namespace; tsd_types visits data types and aliases '
     '(get_data_types_for_namespace) and skips a namespace only when that list is empty; '
-    'tsd_client emits one method per route of every namespace. Decides these structural parts.')
+    'tsd_client emits one method per route of every namespace. Decides these structural parts.'
+    " R5 (generator totality, stonelint.totality): every read of a class-specific IR attribute in the six modules is defined for every class that can reach it, every raise/assert is an unreachable dispatch default, a doc-tag default covering the frontend's tags, a configuration condition or a recorded precondition, and class-keyed table lookups are total.")
 ASSUMPTIONS = ['repr() of a str and json.dumps of a number/bool/null are valid JavaScript literals']
 PRIMS = {'Boolean', 'Bytes', 'Float32', 'Float64', 'Int32', 'Int64', 'UInt32', 'UInt64', 'String',
          'Timestamp', 'Void'}
 
+
+TOTALITY_PRECONDITIONS = {
+    ('backends.tsd_types.TSDTypesBackend._generate_base_namespace_module', 'raise AssertionError'):
+        'the condition is the content of the template file named on the command line (a backend '
+        'option), not the spec',
+}
 
 def run(pm, ctx):
     for r, t in (('C16-R1', 'type formatting exhaustive; dispatch to emitters'),
@@ -320,3 +328,5 @@ def run(pm, ctx):
                   for l in own_nodes(ti.node)),
               'per-namespace TypeScript files import every referenced namespace', ti.loc,
               msg='TypeScript namespace imports changed', key='C16-R4|%s' % ti.qualname)
+    totality.run_pack(pm, ctx, 'C16-R5', ('stone.backends.js_helpers', 'stone.backends.js_client', 'stone.backends.js_types', 'stone.backends.tsd_helpers', 'stone.backends.tsd_types', 'stone.backends.tsd_client'),
+                      True, 'the JavaScript/TypeScript backends', TOTALITY_PRECONDITIONS, (15, 6, 0))
